@@ -90,7 +90,23 @@ func zeroAll(n *core.N) {
 
 func genTree(c *core.Ctx) *core.N {
 	n, _ := c.G.Tree(opts(c.G))
+	if c.G.Chance(0.06) {
+		n = tipRooted(c, n)
+	}
 	return n
+}
+
+// tipRooted hangs the tree below a new root that is itself a tip (a root with a single
+// neighbour, as the Newick text "(...)name;" with one child gives).
+func tipRooted(c *core.Ctx, n *core.N) *core.N {
+	o := opts(c.G)
+	n.E = core.NewE()
+	n.E.Len = c.G.Length(&o)
+	n.PPos = 0
+	if c.G.Chance(0.5) {
+		n.PPos = len(n.Kids)
+	}
+	return &core.N{Name: "r0", Kids: []*core.N{n}}
 }
 
 // Run generates the cases of C05.
